@@ -140,9 +140,9 @@ def main():
                               "all": [[d["id"], d["class"]] for d in ds], "probes": len(res["probes"]),
                               "hash_seed": os.environ.get("PYTHONHASHSEED")}))
             return 0
-        same, d = shrink.replay(doc, fuel=doc.get("fuel", fuel))
+        same, d, used = shrink.replay(doc, fuel=doc.get("fuel", fuel), attempts=8 if doc.get("flaky") else 1)
         sh.assert_pristine()
-        print(json.dumps({"replay": a.replay, "reproduced": bool(same), "diverged": d is not None,
+        print(json.dumps({"replay": a.replay, "reproduced": bool(same), "diverged": d is not None, "attempts": used,
                           "observed": d, "hash_seed": os.environ.get("PYTHONHASHSEED")}))
         return 0
 
@@ -259,8 +259,19 @@ def main():
                 mini = shrink.Minimiser(steps, envs, d0["id"], d0["class"], fuel=fuel)
                 best = mini.run()
                 if best is None:
-                    # did not reproduce on an immediate re-run: the simulation is not deterministic
-                    out["harness"].append({"run": run, "what": "divergence did not reproduce on re-run", "step": d0["id"]})
+                    # seen once, not again in 6 immediate re-runs: the manifestation is not a function of
+                    # the program alone (object addresses / heap layout). Both executions were real, so it
+                    # is still a divergence; keep the whole program, unminimised, and say so.
+                    path = os.path.join(a.replay_dir, f"C10-{a.seed}-{a.shard}-{run}.json")
+                    shrink.write_replay(
+                        path, steps=[dict(s) for s in steps], envs=envs, sid=d0["id"], klass=d0["class"], detail=d0["detail"],
+                        meta={"verif_seed": a.seed, "shard": a.shard, "run": run, "run_seed": rs,
+                              "hash_seed": int(os.environ.get("PYTHONHASHSEED", "0") or 0), "fuel": fuel,
+                              "original_steps": len(steps), "minimised_steps": len(steps), "flaky": True, "observe": "all",
+                              "unreproduced_in_shard": True, "candidates_tried": mini.candidates, "event_log_digest": digest})
+                    vio["replay"] = path
+                    vio["minimised_steps"] = len(steps)
+                    vio["unreproduced_in_shard"] = True
                 else:
                     ren, sid = shrink.renumber(best, d0["id"])
                     path = os.path.join(a.replay_dir, f"C10-{a.seed}-{a.shard}-{run}.json")
@@ -269,6 +280,7 @@ def main():
                         meta={"verif_seed": a.seed, "shard": a.shard, "run": run, "run_seed": rs,
                               "hash_seed": int(os.environ.get("PYTHONHASHSEED", "0") or 0), "fuel": fuel,
                               "original_steps": len(steps), "minimised_steps": len(ren),
+                              "flaky": mini.flaky, "observe": mini.observe,
                               "candidates_tried": mini.candidates, "event_log_digest": digest})
                     vio["replay"] = path
                     vio["minimised_steps"] = len(ren)
